@@ -157,6 +157,10 @@ def explain(kind: str, detail, s: ASchema, text: str, lines=None):
     if F.is_open('F-DOT') and 'F-DOT' in trig and path.endswith('.type') and isinstance(exp, list) \
             and exp[0] == 'enum' and ('.' in exp[1] or '.' in exp[2]) and isinstance(act, list) and act[0] == 'plain':
         return 'F-DOT'
+    if F.is_open('F-REFSPLIT') and 'F-REFSPLIT' in trig and (path.endswith('.c1') or path.endswith('.c2')) \
+            and isinstance(exp, list) and isinstance(act, list) and len(exp) == len(act) \
+            and all(a == e.strip('() ') for a, e in zip(act, exp)):
+        return 'F-REFSPLIT'       # the stripped name happens to be another column of the table: silent misbinding
     return None
 
 
